@@ -17,7 +17,7 @@ class P(DockProp):
     rule = ("2-5 containers whose records share timestamps across containers (ties), Docker labels that collide after sanitisation, per-container attributes; queries whose "
             "answer is sensitive to any ordering freedom: log queries with a limit cutting inside a tie group, topk(1, ..) over tied series, sum/avg of 0.1/0.2/0.3-like "
             "unwrapped values (float addition is not associative), binary operations under an outer aggregation, multi-step range queries. Every query is evaluated under ALL "
-            "completion orders of the concurrent ContainerLogs calls (quick: up to 6; thorough: all n! up to 5 containers) and repeated three times per order (each evaluation "
+            "completion orders of the concurrent ContainerLogs calls (quick: up to 6; thorough: all n! up to 4 containers, 30 of the 120 for 5) and repeated three times per order (each evaluation "
             "re-randomises Go's map iteration); demanded: all evaluations return the SAME streams / series in the SAME order with the same values bit for bit; log queries equal "
             "the exact model. Rendering (C15) is a function of that list, so byte-identical output follows.")
 
@@ -44,9 +44,12 @@ class P(DockProp):
             tss = sorted(rng.choice(stamps) for _ in range(n))
             c.recs = [(ts, B("%s:%d v=%s" % (c.id, k, rng.choice(vals)))) for k, ts in enumerate(tss)]
         perms = [list(p) for p in itertools.permutations(range(nc))]
-        if tier != "thorough" or nc > 5:
+        if tier != "thorough":
             rng.shuffle(perms)
             perms = perms[:6]
+        elif nc > 4:
+            rng.shuffle(perms)
+            perms = perms[:30]          # 5 containers: a sample of the 120 orders (the Coq evaluation of 360 runs per case is too slow)
         kind = rng.choice(["loglimit", "loglimit", "log", "topk", "fsum", "binagg", "range"])
         sel = [C14.eqv("tier", rng.choice(["x", "y"]))] if rng.random() < 0.4 else [dgen.matcher(rng, ctrs, "container_name")]
         start, end = T0 - S, T0 + 4 * S
